@@ -178,7 +178,7 @@ def run(ctx):
     ctx.ob("R-SIB", "C18.5", vd, "the view's dtype takes exactly the requested names with the offsets of the source array", len(rr) == 1 and match_expr("dtype({$$n: x.dtype.fields[$$n] for $$n in names})", rr[0].value) is not None, "")
     mv = ctx.fn(tables.MODEL + ".unstructured_view")
     rr = [n for n in walk_no_nested(mv.node) if isinstance(n, ast.Return)]
-    ctx.ob("R-SIB", "C18.5", mv, "Model.unstructured_view windows exactly the model's parameters (dtype computed from self.names)", len(rr) == 1 and canon(rr[0].value) == "unstructured_view(x, dtype=self._view_dtype)" and len(find_stmt("$$x = empty_structured_array(0, self.names)", prog.cls(tables.MODEL).methods["_view_dtype"].node)) == 1 and len(find_expr("_unstructured_view_dtype($$x, self.names)", prog.cls(tables.MODEL).methods["_view_dtype"].node)) >= 1, "")
+    ctx.ob("R-SIB", "C18.5", mv, "Model.unstructured_view windows exactly the model's parameters (dtype computed from self.names)", len(rr) == 1 and canon(rr[0].value) == "unstructured_view(x, dtype=self._view_dtype)" and len([1 for n_, b_ in find_stmt("self._dtype = $v", prog.cls(tables.MODEL).methods["_view_dtype"].node) if match_expr("_unstructured_view_dtype(empty_structured_array(0, self.names), self.names)", b_["v"], inline=single_assignments(prog.cls(tables.MODEL).methods["_view_dtype"].node)) is not None]) == 1, "")
     ctx.floor("C18.5", 6)
     ctx.assumptions += ["numpy structured-array semantics (field assignment by name, np.ndarray(buffer=...) shares memory); value round-trips for arbitrary names/shapes and pandas behaviour are not decided"]
 
